@@ -37,8 +37,8 @@ def field_const_name(v):
 
 
 class PolyLower(BVLower):
-    def __init__(self, run, prefix='n', modulus=P):
-        super().__init__(run, prefix)
+    def __init__(self, run, prefix='n', modulus=P, cuts=()):
+        super().__init__(run, prefix, cuts)
         self.m = modulus
         self.consts = {}      # name -> value
         self.invars = {}      # fe name -> limb var ids
@@ -88,8 +88,8 @@ class PolyLower(BVLower):
                         pre.append('(declare-const %s Int)' % fe)
                     return pre, fe
             raise ValueError('PolyLower: pack of mixed limbs (node %d): field element assembled from parts' % i)
-        if op == 'limb' and self.run.nodes[a[0]]['w'] == -1 and n['w'] == 64 and n.get('k') == 4:
-            raise ValueError('PolyLower: limb access to an abstract field value (node %d)' % i)
+        if op == 'limb' and self.run.nodes[a[0]]['w'] == -1 and n['w'] == 64:
+            return pre, None   # Montgomery limb of an abstract value: only meaningful when re-packed
         if op == 'limb' and n['w'] == 8:
             idx = n.get('i', 0)
             return pre, '((_ extract %d %d) %s)' % (8 * idx + 7, 8 * idx, A[0])
